@@ -34,7 +34,7 @@ def shards(tier):
 
 
 def required_classes(tier):
-    out = ["g1:iso:kernel", "g2:iso:kernel", "g1:u:maps-to-kernel", "g2:u:maps-to-kernel", "g1:u:exceptional", "g1:u:zero", "g1:u:special", "g1:u:random", "g2:u:zero", "g2:u:special", "g2:u:zero-part", "g2:u:random",
+    out = ["hash:related-messages", "g1:iso:kernel", "g2:iso:kernel", "g1:u:maps-to-kernel", "g2:u:maps-to-kernel", "g1:u:exceptional", "g1:u:zero", "g1:u:special", "g1:u:random", "g2:u:zero", "g2:u:special", "g2:u:zero-part", "g2:u:random",
            "g1:hash", "g2:hash", "hash:dst=255", "hash:dst=256", "hash:dst=0", "g1:iso:rescaled", "g2:iso:rescaled",
            "g1:gx1:square", "g1:gx1:nonsquare", "g2:gx1:square", "g2:gx1:nonsquare"]
     out += ["g2:sqrt:root%d" % k for k in range(4)] + ["g2:sqrt:eta%d" % k for k in range(4)]
@@ -256,6 +256,15 @@ def run(rec):
             if len(dst) == 0:
                 rec.case("hash:dst=0", None, nontrivial=False)
             call(fn, msg, dst, HASHES[hname])
+        # pairs of RELATED messages under one tag: a long message and its digest, a message and its truncation / its 0x00-extension
+        for j in range(2 if quick else 12):
+            hname = H2C_HASHES[(j + rec.shard) % len(H2C_HASHES)]
+            H_ = HASHES[hname]
+            m1 = rng.randbytes(rng.choice([257, 300, 1000, 65, 129]))
+            dst = rng.choice(dsts)
+            for m_ in (m1, H_(m1).digest(), H_(m1).hexdigest().encode(), m1[:32], m1 + b"\x00", HASHES["sha256"](m1).digest()):
+                rec.case("hash:related-messages", ("hashrel", g, m_, dst, hname), sample={"fn": "hash_to_G%d" % g, "relation": "digest / prefix / extension of the previous message", "hash": hname} if j == 0 else None)
+                call(fn, m_, dst, H_)
         # over-long tag must be refused
         rec.case("hash:dst=256", ("hash", g, b"x", 256))
         call(fn, b"x", rng.randbytes(256), HASHES["sha256"])
